@@ -5,6 +5,7 @@ import (
 	"fmt"
 	"os"
 	"os/exec"
+	"regexp"
 	"sort"
 	"strings"
 	"time"
@@ -217,6 +218,15 @@ type workerOut struct {
 
 // exploreShard explores one shard of the schedule tree of sc in this process.
 func exploreShard(sc *schedScenario, class string, bound, maxExec int, deadline time.Time, shard, nshards int, judgeSerial bool) workerOut {
+	return exploreShardProp("C13", sc, class, bound, maxExec, deadline, shard, nshards, judgeSerial, nil)
+}
+
+// exploreShardCustom explores with a driver supplied oracle on the observation vector instead of the serialisability oracle.
+func exploreShardCustom(sc *schedScenario, prop string, bound, maxExec int, deadline time.Time, shard, nshards int, judge func(obs []string) (string, string)) workerOut {
+	return exploreShardProp(prop, sc, sc.Class, bound, maxExec, deadline, shard, nshards, false, judge)
+}
+
+func exploreShardProp(prop string, sc *schedScenario, class string, bound, maxExec int, deadline time.Time, shard, nshards int, judgeSerial bool, judge func(obs []string) (string, string)) workerOut {
 	start := time.Now()
 	if class == "" {
 		class = "active"
@@ -230,8 +240,11 @@ func exploreShard(sc *schedScenario, class string, bound, maxExec int, deadline 
 		}
 		viol[sig] = &workerViolation{sig, what, replay, 1}
 	}
-	tmp := fw.NewCheck("C13", "worker", "model_checking")
-	allowed, seqRuns, seqBroken := sc.referenceSet(tmp)
+	tmp := fw.NewCheck(prop, "worker", "model_checking")
+	allowed, seqRuns, seqBroken := map[string]bool{}, 0, false
+	if judgeSerial {
+		allowed, seqRuns, seqBroken = sc.referenceSet(tmp)
+	}
 	if shard == 0 {
 		tmp.Drain(add)
 	}
@@ -250,15 +263,22 @@ func exploreShard(sc *schedScenario, class string, bound, maxExec int, deadline 
 		OnExec: func(x *fw.Exec) bool {
 			obs := x.Obs.([]string)
 			key := strings.Join(obs, ",")
-			replay := map[string]interface{}{"driver": "C13", "scenario": sc.Name, "choices": x.Choices}
+			replay := map[string]interface{}{"driver": prop, "scenario": sc.Name, "choices": x.Choices}
 			if x.Res.Verdict != vsched.OK {
 				key = x.Res.Verdict.String()
-				c2 := fw.NewCheck("C13", "worker", "model_checking")
+				c2 := fw.NewCheck(prop, "worker", "model_checking")
 				reportExecVerdict(c2, sc, x.Res, x.Choices, "")
 				c2.Drain(add)
 			} else if judgeSerial && !seqBroken && !allowed[key] && !sc.allowedModuloErr(obs, allowed) {
-				add("C13|nonserializable|"+sc.Name+"|"+key,
+				add(prop+"|nonserializable|"+sc.Name+"|"+key,
 					fmt.Sprintf("scenario %s: verdict vector %s is not produced by any coarse-grained sequential order of the operations (allowed: %v)", sc.Name, key, rep.Allowed), replay)
+			}
+			if judge != nil && x.Res.Verdict == vsched.OK {
+				if sig, what := judge(obs); sig != "" {
+					add(sig+"|"+sc.Name, fmt.Sprintf("scenario %s: %s; observations %v", sc.Name, what, obs), replay)
+				}
+				// outcome statistics without the step stamps
+				key = stripStamps(key)
 			}
 			rep.Outcomes[key]++
 			for _, r := range x.Res.Races {
@@ -266,7 +286,7 @@ func exploreShard(sc *schedScenario, class string, bound, maxExec int, deadline 
 				if !races[sig] {
 					races[sig] = true
 				}
-				add("C13|race|"+sig,
+				add(prop+"|race|"+sig,
 					fmt.Sprintf("data race (%s) on %s between %s and %s (scenario %s)", r.Kinds, r.Loc, r.SiteA, r.SiteB, sc.Name), replay)
 			}
 			return true
@@ -301,7 +321,14 @@ func exploreScenario(chk *fw.Check, prop string, sc *schedScenario, class string
 	} else {
 		outs = runWorkers(prop, sc.Name, bound, maxExec/nshards+1, deadline, nshards)
 	}
-	rep := schedReport{Scenario: sc.Name, Outcomes: map[string]int{}, BoundDone: 1 << 30}
+	rep := mergeWorkerOuts(chk, sc.Name, outs)
+	rep.WallS = time.Since(start).Seconds()
+	return rep
+}
+
+func mergeWorkerOuts(chk *fw.Check, name string, outs []workerOut) schedReport {
+	start := time.Now()
+	rep := schedReport{Scenario: name, Outcomes: map[string]int{}, BoundDone: 1 << 30}
 	races := map[string]bool{}
 	for _, o := range outs {
 		r := o.Report
@@ -338,9 +365,18 @@ func exploreScenario(chk *fw.Check, prop string, sc *schedScenario, class string
 		rep.Races = append(rep.Races, r)
 	}
 	sort.Strings(rep.Races)
-	rep.WallS = time.Since(start).Seconds()
+	for _, o := range outs {
+		if o.Report.WallS > rep.WallS {
+			rep.WallS = o.Report.WallS
+		}
+	}
+	_ = start
 	return rep
 }
+
+var stampRe = regexp.MustCompile(`@[0-9]+-[0-9]+`)
+
+func stripStamps(s string) string { return stampRe.ReplaceAllString(s, "") }
 
 // runWorkers starts nshards subprocesses of this binary in worker mode.
 func runWorkers(prop, scenario string, bound, maxExec int, deadline time.Time, nshards int) []workerOut {
@@ -397,16 +433,17 @@ func siteFn(s string) string {
 }
 
 func reportExecVerdict(chk *fw.Check, sc *schedScenario, res *vsched.Result, choices []int, ctx string) {
-	replay := map[string]interface{}{"driver": "C13", "scenario": sc.Name, "choices": choices, "context": ctx}
+	prop := chk.ID
+	replay := map[string]interface{}{"driver": prop, "scenario": sc.Name, "choices": choices, "context": ctx}
 	switch res.Verdict {
 	case vsched.Deadlock:
-		chk.Violation("C13|deadlock|"+deadlockSig(res.Detail),
+		chk.Violation(prop+"|deadlock|"+deadlockSig(res.Detail),
 			fmt.Sprintf("scenario %s %s: deadlock: %s", sc.Name, ctx, res.Detail), replay)
 	case vsched.Panic:
-		chk.Violation("C13|panic|"+res.PanicSite,
+		chk.Violation(prop+"|panic|"+res.PanicSite,
 			fmt.Sprintf("scenario %s %s: %s", sc.Name, ctx, firstLines(res.Detail, 12)), replay)
 	case vsched.Horizon:
-		chk.Violation("C13|horizon|"+sc.Name, fmt.Sprintf("scenario %s %s: step horizon reached (livelock?)", sc.Name, ctx), replay)
+		chk.Violation(prop+"|horizon|"+sc.Name, fmt.Sprintf("scenario %s %s: step horizon reached (livelock?)", sc.Name, ctx), replay)
 	}
 }
 
